@@ -16,6 +16,7 @@ import PdbModel.DriverC13
 import PdbModel.DriverC14
 import PdbModel.DriverC16
 import PdbModel.DriverPdb
+import PdbModel.DriverCif
 namespace PdbModel
 
 def parseLevels (t : String) : Option (List ErrorLevel) :=
@@ -56,6 +57,7 @@ def handle (line : String) : String :=
   | "c13" :: rest => (handleC13 rest).getD "BAD-REQUEST"
   | "c14" :: rest => (handleC14 rest).getD "BAD-REQUEST"
   | "c16" :: rest => (handleC16 rest).getD "BAD-REQUEST"
+  | "cif" :: rest => (handleCif rest).getD "BAD-REQUEST"
   | "pdb" :: rest => ((handlePdb rest).orElse fun _ => handlePdbWrite rest).getD "BAD-REQUEST"
   | _ => "BAD-REQUEST"
 
